@@ -42,6 +42,56 @@ theorem castErr_py : castErr .py = .overflow := rfl
 theorem castErr_i32 : castErr .i32 = .assert_ := rfl
 theorem castErr_i64 : castErr .i64 = .assert_ := rfl
 
+/-- `Agrees` plus the tag of the result: what callers of a translated function need to continue the
+    symbolic execution with the callee's result -/
+def SimT {ε : Type} (rel : Err → ε → Prop) (tag : Ty) (s : M Num) (m : Except ε Int) : Prop :=
+  match s, m with
+  | .ok n, .ok v => n = ⟨tag, v⟩
+  | .error e, .error f => rel e f
+  | _, _ => False
+
+theorem simT_ok {ε : Type} (rel : Err → ε → Prop) (tag t : Ty) (x y : Int) :
+    SimT rel tag (.ok ⟨t, x⟩) (.ok y) = (t = tag ∧ x = y) := by
+  simp only [SimT, Num.mk.injEq]
+theorem simT_err {ε : Type} (rel : Err → ε → Prop) (tag : Ty) (e : Err) (f : ε) :
+    SimT rel tag (.error e) (.error f) = rel e f := rfl
+theorem simT_ok_err {ε : Type} (rel : Err → ε → Prop) (tag : Ty) (n : Num) (f : ε) :
+    SimT rel tag (.ok n) (.error f) = False := rfl
+theorem simT_err_ok {ε : Type} (rel : Err → ε → Prop) (tag : Ty) (e : Err) (y : Int) :
+    SimT rel tag (.error e) (.ok y) = False := rfl
+
+theorem SimT.agrees {ε : Type} {rel : Err → ε → Prop} {tag : Ty} {s : M Num} {m : Except ε Int}
+    (h : SimT rel tag s m) : Agrees rel s m := by
+  cases s <;> cases m <;> simp only [SimT, Agrees] at h ⊢
+  · exact h
+  · rw [h]
+
+/-- case analysis on a callee's model outcome: either both fail (related errors) or both succeed -/
+theorem SimT.cases {ε : Type} {rel : Err → ε → Prop} {tag : Ty} {s : M Num} {m : Except ε Int}
+    (h : SimT rel tag s m) :
+    (∃ e f, s = .error e ∧ m = .error f ∧ rel e f) ∨ (∃ v, s = .ok ⟨tag, v⟩ ∧ m = .ok v) := by
+  cases s <;> cases m <;> simp only [SimT] at h
+  · exact Or.inl ⟨_, _, rfl, rfl, h⟩
+  · exact Or.inr ⟨_, by rw [h], rfl⟩
+
+/-- a hand-model outcome as an outcome of the translated source: the value gets the tag `tag`, any
+    model error becomes `err` -/
+def Lift {ε : Type} (tag : Ty) (err : Err) (m : Except ε Int) : M Num :=
+  match m with
+  | .ok v => .ok ⟨tag, v⟩
+  | .error _ => .error err
+theorem lift_ok {ε : Type} (tag : Ty) (err : Err) (v : Int) : Lift tag err (.ok v : Except ε Int) = .ok ⟨tag, v⟩ := rfl
+theorem lift_err {ε : Type} (tag : Ty) (err : Err) (f : ε) : Lift tag err (.error f : Except ε Int) = .error err := rfl
+/-- `s = Lift tag err m` as a relation (so that `py_exec` evaluates `s` and `m` side by side and
+    `py_finish` splits their common conditions, instead of pushing `Lift` through the tree of `m`) -/
+def LiftRel {ε : Type} (tag : Ty) (err : Err) (s : M Num) (m : Except ε Int) : Prop := s = Lift tag err m
+theorem liftRel_ok {ε : Type} (tag : Ty) (err : Err) (s : M Num) (v : Int) :
+    LiftRel tag err s (.ok v : Except ε Int) = (s = .ok ⟨tag, v⟩) := rfl
+theorem liftRel_err {ε : Type} (tag : Ty) (err : Err) (s : M Num) (f : ε) :
+    LiftRel tag err s (.error f : Except ε Int) = (s = .error err) := rfl
+theorem lift_ite {ε : Type} (tag : Ty) (err : Err) (c : Prop) [Decidable c] (x y : Except ε Int) :
+    Lift tag err (if c then x else y) = if c then Lift tag err x else Lift tag err y := by split <;> rfl
+
 /-! ### monad -/
 theorem ebind_ok {ε α β} (a : α) (f : α → Except ε β) : (Except.ok a >>= f) = f a := rfl
 theorem ebind_err {ε α β} (e : ε) (f : α → Except ε β) : ((Except.error e : Except ε α) >>= f) = Except.error e := rfl
@@ -117,11 +167,22 @@ theorem bind_ite {α β} (c : Prop) [Decidable c] (x y : M α) (f : α → M β)
 
 theorem pyAssert_true : pyAssert true = .ok () := rfl
 theorem pyAssert_false : pyAssert false = .error .assert_ := rfl
+theorem pyAssert_eq (b : Bool) : pyAssert b = if b = true then .ok () else .error .assert_ := by
+  cases b <;> rfl
 theorem pyAssert_decide (p : Prop) [Decidable p] :
     pyAssert (decide p) = if p then .ok () else .error .assert_ := by
   by_cases h : p <;> simp [pyAssert, h]
 
 /-! ### tags -/
+
+/-- the int32 wrap as a function of its own: used by specification lemmas to *annotate* a value with
+    its range (`W32 v = v` for a `v` that fits, proved once in the lemma) in a form that `omega`
+    understands after unfolding and that no rewrite rule of `py_exec` touches -/
+def W32 (v : Int) : Int := (v + 2147483648) % 4294967296 - 2147483648
+theorem W32_id (v : Int) (h : Ty.fits .i32 v) : W32 v = v := by
+  simp only [Ty.fits] at h; unfold W32; omega
+theorem W32_eq_wrap (v : Int) : W32 v = wrap .i32 v := rfl
+
 theorem wrap_py (v : Int) : wrap .py v = v := rfl
 
 theorem wrap_id (t : Ty) (v : Int) (h : t.fits v) : wrap t v = v := by
@@ -309,15 +370,15 @@ macro "py_side" : tactic =>
   `(tactic| first
     | exact Or.inl rfl
     | exact trivial
-    | (simp only [ne_eq, reduceCtorEq, not_false_eq_true, Ty.fits, Ty.bits, T3, or_true, true_or, or_self, false_or, or_false, wrap] <;> omega)
+    | (simp only [ne_eq, reduceCtorEq, not_false_eq_true, Ty.fits, Ty.bits, T3, or_true, true_or, or_self, false_or, or_false, wrap, W32] <;> omega)
     | omega)
 
 open VelaVerif.PyRt in
 /-- symbolic execution of translated definitions; the argument lists the definitions to unfold -/
 macro "py_exec" "[" defs:Lean.Parser.Tactic.simpLemma,* "]" : tactic =>
   `(tactic| set_option linter.unusedSimpArgs false in simp (maxSteps := 4000000) (disch := py_side) only [$defs,*, ↓bindStep,
-      bind_ok, bind_err, pure_eq, bind_ite, ebind_ok, ebind_err, epure_eq, ebind_ite, ethrow_eq, pyAssert_true, pyAssert_false, pyAssert_decide,
-      castErr_py, castErr_i32, castErr_i64, wrap_eq_self, wrap_py, wrap_i8, wrap_i16, wrap_i32, wrap_i64, wrap_u8, wrap_u16, wrap_u32, coerce2_py_py, coerce2_py_np, coerce2_np_py, coerce2_np_np, promote,
+      bind_ok, bind_err, pure_eq, bind_ite, ebind_ok, ebind_err, epure_eq, ebind_ite, ethrow_eq, pyAssert_true, pyAssert_false, pyAssert_eq,
+      lift_ok, lift_err, castErr_py, castErr_i32, castErr_i64, wrap_eq_self, wrap_py, wrap_i8, wrap_i16, wrap_i32, wrap_i64, wrap_u8, wrap_u16, wrap_u32, coerce2_py_py, coerce2_py_np, coerce2_np_py, coerce2_np_np, promote,
       add_mk, sub_mk, mul_mk, and_mk, or_mk, xor_mk, floordiv_mk, mod_mk, shl_mk, shr_mk, pow_mk,
       neg_mk, pos_mk, invert_mk, abs_mk, int_mk, lt_mk, le_mk, gt_mk, ge_mk, eq_mk, ne_mk, truthy_mk,
       min_mk, max_mk, cast_py, cast_np, fdiv_pos, fmod_pos, Ty.bits, iand_mask, iand_two_pow,
@@ -367,8 +428,10 @@ macro "py_finish" : tactic =>
       | contradiction
       | omega
       | trivial
-      | (simp only [wrap] at * <;> omega)
+      | (simp only [wrap, W32] at * <;> omega)
       | (simp only [Except.ok.injEq, Except.error.injEq, Num.mk.injEq, true_and, and_true, reduceCtorEq,
-          agrees_ok, agrees_err, agrees_ok_err, agrees_err_ok] <;> first | trivial | omega)
+          agrees_ok, agrees_err, agrees_ok_err, agrees_err_ok, liftRel_ok, liftRel_err,
+          simT_ok, simT_err, simT_ok_err, simT_err_ok] <;> first | trivial | omega)
       | (simp only [Except.ok.injEq, Except.error.injEq, Num.mk.injEq, true_and, and_true, reduceCtorEq,
-          agrees_ok, agrees_err, agrees_ok_err, agrees_err_ok, wrap] at * <;> first | trivial | omega)))
+          agrees_ok, agrees_err, agrees_ok_err, agrees_err_ok, liftRel_ok, liftRel_err,
+          simT_ok, simT_err, simT_ok_err, simT_err_ok, wrap, W32] at * <;> first | trivial | omega)))
